@@ -269,4 +269,161 @@ theorem numberTail_spec {c : Cfg} (hs : Std c) (o : POpts) (neg : Bool) (ip : In
           refine ⟨fun h => by rw [hE, tailOk_noexp, hr, hm] at h; simp at h, fun _ => ?_⟩
           obtain ⟨bF, e0, h1, h2, h3, h4⟩ := hfinish ⟨fp.byte, 0, fp.exponent⟩ rfl hv (by rw [htl, hE])
           exact ⟨_, bF, e0, by simp only [ha2 hr, bind, Except.bind]; exact h1, h2, h3, h4, by simp [hE]⟩
+
+/-- the flag constraints of `numberOk` that concern the number body (everything but the mantissa sign and
+"nothing is left over") -/
+def bodyOk (y : Syn) (p : Parts) : Bool :=
+  !(y.reqInt && p.ints.isEmpty) && !(y.reqFrac && p.point && p.fracs.isEmpty)
+  && !(y.reqMant && p.ints.isEmpty && p.fracs.isEmpty) && !(y.noFloatLZ && !p.pre && leadingZeros p.ints)
+  && !(y.noExpNot && p.hasExp) && !(y.reqExpNot && !p.hasExp) && !(y.noExpWoFrac && p.hasExp && !p.point)
+  && !(p.hasExp && !signOk y.noPosExp y.reqExpSign p.expSign) && !(y.reqExp && p.hasExp && p.exps.isEmpty)
+
+theorem numberOk_eq (y : Syn) (p : Parts) :
+    numberOk y p = (p.rest.isEmpty && signOk y.noPosMant y.reqMantSign p.sign && bodyOk y p) := by
+  simp only [numberOk, bodyOk, Bool.and_assoc]
+
+/-- the stages of `splitNumber` when the format has no base prefix -/
+theorem splitNumber_stages (y : Syn) (hp : y.pre = 0) (o : POpts) (sign : Option Bool) (l : List Nat) :
+    splitNumber y o sign l =
+      ⟨sign, false, (takeDigits y.radix l).1,
+        (splitFraction y o (takeDigits y.radix l).2).1, (splitFraction y o (takeDigits y.radix l).2).2.1,
+        (splitExponent y o (splitFraction y o (takeDigits y.radix l).2).2.2).1,
+        (splitExponent y o (splitFraction y o (takeDigits y.radix l).2).2.2).2.1,
+        (splitExponent y o (splitFraction y o (takeDigits y.radix l).2).2.2).2.2.1,
+        (splitSuffix y (splitExponent y o (splitFraction y o (takeDigits y.radix l).2).2.2).2.2.2).1,
+        (splitSuffix y (splitExponent y o (splitFraction y o (takeDigits y.radix l).2).2.2).2.2.2).2⟩ := by
+  simp only [splitNumber, splitPrefix_none y hp]
+
+theorem bodyOk_stages (c : Cfg) (ids fds : List Nat) (point : Bool) (E : Bool × Option Bool × List Nat × List Nat)
+    (sign : Option Bool) (sf : Bool) (rest : List Nat) :
+    bodyOk (cfgSyn c) ⟨sign, false, ids, point, fds, E.1, E.2.1, E.2.2.1, sf, rest⟩ =
+      (!(c.requiredIntegerDigits && ids.isEmpty) && !(c.noFloatLeadingZeros && leadingZeros ids) &&
+       !(c.requiredFractionDigits && point && fds.isEmpty) &&
+       tailOk c (ids.length + fds.length) (!point) E) := by
+  have hz : decide (ids.length + fds.length = 0) = (ids.isEmpty && fds.isEmpty) := by
+    cases ids <;> cases fds <;> simp
+  simp only [bodyOk, tailOk, hz, syn_reqInt, syn_reqFrac, syn_reqMant, syn_noFloatLZ, syn_noExpNot, syn_reqExpNot,
+    syn_noExpWoFrac, syn_noPosExp, syn_reqExpSign, syn_reqExp, Bool.not_false, Bool.and_true, Bool.and_assoc]
+  ac_rfl
+
+/-- `parse_number::<FORMAT, false>` against the staged splitter -/
+theorem parseNumber_spec {c : Cfg} (hs : Std c) (o : POpts) (b : Bytes) (neg fv : Bool)
+    (hb : ∀ x ∈ b.slc, x < 256) (hv : b.index ≤ b.slc.length)
+    (I : List Nat × List Nat) (hI : I = takeDigits c.mantissaRadix (tl b))
+    (F : Bool × List Nat × List Nat) (hF : F = splitFraction (cfgSyn c) o I.2)
+    (E : Bool × Option Bool × List Nat × List Nat) (hE : E = splitExponent (cfgSyn c) o F.2.2)
+    (S : Bool × List Nat) (hS : S = splitSuffix (cfgSyn c) E.2.2.2)
+    (ok : Bool) (hok : ok = (!(c.requiredIntegerDigits && I.1.isEmpty) && !(c.noFloatLeadingZeros && leadingZeros I.1) &&
+       !(c.requiredFractionDigits && F.1 && F.2.1.isEmpty) && tailOk c (I.1.length + F.2.1.length) (!F.1) E)) :
+    (ok = false → ∃ k i, parseNumber c false o b neg fv = .error (.err k i)) ∧
+    (ok = true → ∃ ip fp ep bF e0,
+      parseNumber c false o b neg fv =
+        (if I.1.length + F.2.1.length ≤ u64Step c.feats c.mantissaRadix then
+          .ok (⟨fp.mantissa, e0, neg, false, ip.integerDigits, fp.fraction, ep.explicit⟩, bF.index)
+         else manyDigitsPhase c o neg ip fp ep (I.1.length + F.2.1.length) (u64Step c.feats c.mantissaRadix) e0 bF.index) ∧
+      bF.slc = b.slc ∧ bF.index ≤ bF.slc.length ∧ tl bF = S.2 ∧
+      ip.integerDigits = (tl b).take I.1.length ∧
+      fp.fraction = (if F.1 = true then some ((I.2.drop 1).take F.2.1.length) else none) ∧
+      ep.explicit = (if E.1 = true then expValue c.exponentRadix E.2.1 E.2.2.1 else 0)) := by
+  rw [parseNumber_stages c hs.release]
+  obtain ⟨hi1, hi2⟩ := integerPhase_spec hs b hb
+  rw [← hI] at hi1 hi2
+  have hIle : I.1.length ≤ (tl b).length := by rw [hI]; exact takeDigits_le _ _
+  have hI2 : I.2 = (tl b).drop I.1.length := by rw [hI]; exact takeDigits_rest _ _
+  by_cases a1 : (c.requiredIntegerDigits && I.1.isEmpty) = true
+  · obtain ⟨k, i, he⟩ := hi1 a1
+    exact ⟨fun _ => ⟨k, i, by simp only [he, bind, Except.bind]⟩, fun h => by rw [hok, a1] at h; simp at h⟩
+  · simp only [Bool.not_eq_true] at a1
+    obtain ⟨hi3, hi4⟩ := hi2 a1
+    by_cases a2 : (c.noFloatLeadingZeros && leadingZeros I.1) = true
+    · obtain ⟨k, i, he⟩ := hi3 a2
+      exact ⟨fun _ => ⟨k, i, by simp only [he, bind, Except.bind]⟩, fun h => by rw [hok, a1, a2] at h; simp at h⟩
+    · simp only [Bool.not_eq_true] at a2
+      obtain ⟨ip, hip, _, hstart, hadvI, hnI, hdigI⟩ := hi4 a2
+      have htlI : tl ip.byte = I.2 := by rw [hadvI.tl, hI2]
+      have hvI : ip.byte.index ≤ ip.byte.slc.length := hadvI.valid hIle hv
+      have hbI : ∀ x ∈ ip.byte.slc, x < 256 := by rw [hadvI.1]; exact hb
+      simp only [hip, bind, Except.bind]
+      -- fraction
+      have hfrac : ∀ (fp : FracPart), fp.byte.slc = b.slc → fp.byte.index ≤ fp.byte.slc.length →
+          ip.nDigits + fp.nAfterDot ≤ fp.byte.index → tl fp.byte = F.2.2 → fp.nAfterDot = F.2.1.length →
+          fp.fraction.isNone = !F.1 →
+          (tailOk c (I.1.length + F.2.1.length) (!F.1) E = false → ∃ k i, numberTail c o neg ip fp = .error (.err k i)) ∧
+          (tailOk c (I.1.length + F.2.1.length) (!F.1) E = true → ∃ ep bF e0,
+            numberTail c o neg ip fp =
+              (if I.1.length + F.2.1.length ≤ u64Step c.feats c.mantissaRadix then
+                .ok (⟨fp.mantissa, e0, neg, false, ip.integerDigits, fp.fraction, ep.explicit⟩, bF.index)
+               else manyDigitsPhase c o neg ip fp ep (I.1.length + F.2.1.length) (u64Step c.feats c.mantissaRadix) e0 bF.index) ∧
+            bF.slc = b.slc ∧ bF.index ≤ bF.slc.length ∧ tl bF = S.2 ∧
+            ep.explicit = (if E.1 = true then expValue c.exponentRadix E.2.1 E.2.2.1 else 0)) := by
+        intro fp h1 h2 h3 h4 h5 h6
+        have := numberTail_spec hs o neg ip fp (by rw [h1]; exact hb) h2 h3
+        simp only [h4, ← hE, ← hS, hnI, h5, h6] at this
+        obtain ⟨t1, t2⟩ := this
+        refine ⟨t1, fun h => ?_⟩
+        obtain ⟨ep, bF, e0, q1, q2, q3, q4, q5⟩ := t2 h
+        exact ⟨ep, bF, e0, q1, q2.trans h1, q3, q4, q5⟩
+      cases hr1 : I.2 with
+      | nil =>
+        have hFv : F = (false, [], []) := by rw [hF, hr1]; rfl
+        have hF1 : F.1 = false := by rw [hFv]
+        have hF21 : F.2.1 = [] := by rw [hFv]
+        have hF22 : F.2.2 = [] := by rw [hFv]
+        have hnp := fractionPhase_nopoint (c := c) o ip.byte ip.mantissa (by rw [htlI, hr1]; simp)
+        simp only [hnp]
+        obtain ⟨t1, t2⟩ := hfrac ⟨ip.byte, ip.mantissa, 0, 0, none, false⟩ hadvI.1 hvI
+          (by simp only [hnI, hadvI.2]; omega) (by rw [htlI, hr1, hF22]) (by rw [hF21]; rfl) (by rw [hF1]; rfl)
+        have hokv : ok = tailOk c (I.1.length + F.2.1.length) (!F.1) E := by
+          rw [hok, a1, a2, hF1]; simp
+        rw [hokv]
+        refine ⟨t1, fun h => ?_⟩
+        obtain ⟨ep, bF, e0, q1, q2, q3, q4, q5⟩ := t2 h
+        exact ⟨ip, _, ep, bF, e0, q1, q2, q3, q4, hdigI, by rw [hF1]; rfl, q5⟩
+      | cons x xs =>
+        by_cases hx : x = o.dp
+        · subst hx
+          have hFv : F = (true, (takeDigits c.mantissaRadix xs).1, (takeDigits c.mantissaRadix xs).2) := by
+            rw [hF, hr1]; simp [splitFraction, syn_radix]
+          have hF1 : F.1 = true := by rw [hFv]
+          have hF21 : F.2.1 = (takeDigits c.mantissaRadix xs).1 := by rw [hFv]
+          have hF22 : F.2.2 = (takeDigits c.mantissaRadix xs).2 := by rw [hFv]
+          obtain ⟨hp1, hp2⟩ := fractionPhase_point hs o ip.byte ip.mantissa xs hbI (by rw [htlI, hr1])
+          rw [← hF21] at hp1 hp2
+          have hxle : F.2.1.length ≤ xs.length := by rw [hF21]; exact takeDigits_le c.mantissaRadix xs
+          by_cases a3 : (c.requiredFractionDigits && F.2.1.isEmpty) = true
+          · obtain ⟨k, i, he⟩ := hp1 a3
+            refine ⟨fun _ => ⟨k, i, by simp only [he]⟩, fun h => ?_⟩
+            rw [hok, a1, a2, hF1, Bool.and_true, a3] at h
+            simp at h
+          · simp only [Bool.not_eq_true] at a3
+            obtain ⟨fp, hfp, hadvF, hnF, hfrF, _⟩ := hp2 a3
+            simp only [hfp]
+            have hvF : fp.byte.index ≤ fp.byte.slc.length :=
+              hadvF.valid (by rw [htlI, hr1]; simp only [List.length_cons]; omega) hvI
+            obtain ⟨t1, t2⟩ := hfrac fp (hadvF.1.trans hadvI.1) hvF
+              (by rw [hnI, hnF, hadvF.2, hadvI.2]; omega)
+              (by rw [hadvF.tl, htlI, hr1, hF22, Nat.add_comm 1, List.drop_succ_cons, takeDigits_rest, ← hF21])
+              hnF (by rw [hfrF, hF1]; rfl)
+            have hokv : ok = tailOk c (I.1.length + F.2.1.length) (!F.1) E := by
+              rw [hok, a1, a2, hF1, Bool.and_true, a3]; simp
+            rw [hokv]
+            refine ⟨t1, fun h => ?_⟩
+            obtain ⟨ep, bF, e0, q1, q2, q3, q4, q5⟩ := t2 h
+            exact ⟨ip, fp, ep, bF, e0, q1, q2, q3, q4, hdigI, by rw [hfrF, hF1]; simp, q5⟩
+        · have hFv : F = (false, [], x :: xs) := by
+            rw [hF, hr1]; simp [splitFraction, hx]
+          have hF1 : F.1 = false := by rw [hFv]
+          have hF21 : F.2.1 = [] := by rw [hFv]
+          have hF22 : F.2.2 = x :: xs := by rw [hFv]
+          have hnp := fractionPhase_nopoint (c := c) o ip.byte ip.mantissa
+            (by rw [htlI, hr1]; simpa using hx)
+          simp only [hnp]
+          obtain ⟨t1, t2⟩ := hfrac ⟨ip.byte, ip.mantissa, 0, 0, none, false⟩ hadvI.1 hvI
+            (by simp only [hnI, hadvI.2]; omega) (by rw [htlI, hr1, hF22]) (by rw [hF21]; rfl) (by rw [hF1]; rfl)
+          have hokv : ok = tailOk c (I.1.length + F.2.1.length) (!F.1) E := by
+            rw [hok, a1, a2, hF1]; simp
+          rw [hokv]
+          refine ⟨t1, fun h => ?_⟩
+          obtain ⟨ep, bF, e0, q1, q2, q3, q4, q5⟩ := t2 h
+          exact ⟨ip, _, ep, bF, e0, q1, q2, q3, q4, hdigI, by rw [hF1]; rfl, q5⟩
 end LexVerif.Proof.Grammar
